@@ -64,3 +64,10 @@ CLAIMED['C13'] = (
     'Displacement-form input (the wrapped-positions -> minimum-image-steps step is re-proved as a lemma where filter() round-trips); steps reaching the half cell excluded; floats read as reals; z3.',
     'DESIGN.md §3 C13')
 NOT_APPLICABLE.pop('C13', None)
+CLAIMED['C15'] = (
+    'symbolic execution of Trajectory slicing/filter/split/extend and read-only queries on real-valued symbolic coordinates over enumerated call sequences; z3 per-entry obligations with recorded cuts',
+    'Every call sequence up to the bounded length is executed on a trajectory whose coordinates are symbolic reals (both internal representations); after every call, '
+    'the source and every derived trajectory are proved (z3 unsat, per entry) to hold exactly the expected frames/atoms of the wrapped input, before and after displacement-type queries.',
+    'Call sequences and shapes are enumerated bounds; floats read as reals; half-cell ties excluded; after each proof the stored coordinates are replaced by the proved closed form (cut) so terms stay shallow; z3.',
+    'DESIGN.md §3 C15')
+NOT_APPLICABLE.pop('C15', None)
